@@ -136,11 +136,8 @@ def barrierPrimal (s : V3 α) : MErr α := do
   let w := (w - 1) * (w - 1) / w
   pure (-(logsafe w) - (logsafe s.2.1) * 2 - logsafe s.2.2 - 3)
 
-/-- `higher_correction` with the stored `H_dual` and `z`: `η`. -/
-def higherCorrection (H : Sym3 α) (z ds v : V3 α) : V3 α :=
-  let (ok, cholH) := Sym3.choleskyFactor H
-  if !ok then (0, 0, 0) else
-  let u := Sym3.choleskySolve cholH ds
+/-- the part of `higher_correction` after the solve `H u = ds`: `η` as a function of `z, u, v` -/
+def higherCorrectionOf (z u v : V3 α) : V3 α :=
   let z0 := z.1; let z1 := z.2.1; let z2 := z.2.2
   let u0 := u.1; let u2 := u.2.2
   let v0 := v.1; let v2 := v.2.2
@@ -167,6 +164,13 @@ def higherCorrection (H : Sym3 α) (z ds v : V3 α) : V3 α :=
       + dotψu * invψ2 * (z0 * v2 / (z2 * z2) - v0 / z2)
       + dotψv * invψ2 * (z0 * u2 / (z2 * z2) - u0 / z2))
   (e0 * (0.5 : α), e1 * (0.5 : α), e2 * (0.5 : α))
+
+/-- `higher_correction` with the stored `H_dual` and `z`: `η` (zero when the Cholesky
+factorisation of `H_dual` fails). -/
+def higherCorrection (H : Sym3 α) (z ds v : V3 α) : V3 α :=
+  let (ok, cholH) := Sym3.choleskyFactor H
+  if !ok then (0, 0, 0) else
+  higherCorrectionOf z (Sym3.choleskySolve cholH ds) v
 
 /-- `unit_initialization`: `s = z =` the three constants -/
 def unitInitialization : V3 α :=
